@@ -20,6 +20,12 @@ type c09Cfg struct {
 	Cols  int  `json:"group_cols"`
 	Eager bool `json:"eager_feed"`
 	MaxL  int  `json:"max_len"`
+	// Sparse: two grouping columns where a column may be missing: (a,a), (a,missing), (missing,a)
+	Sparse bool `json:"sparse_keys,omitempty"`
+	// GapMs: virtual time slept after every row (the default configuration never reaps key state, whatever the pauses)
+	GapMs int `json:"gap_ms,omitempty"`
+	// TTL: WITH (STATETTL=...) ; sequences in which some key stays idle for TTL or longer are outside the property and skipped
+	TTL string `json:"state_ttl,omitempty"`
 }
 
 func c09Configs(tier string) []c09Cfg {
@@ -37,6 +43,14 @@ func c09Configs(tier string) []c09Cfg {
 				out = append(out, c09Cfg{N: n, Cols: cols, Eager: eager, MaxL: maxL})
 			}
 		}
+	}
+	for _, n := range []int{2, 3} {
+		for _, eager := range []bool{false, true} {
+			out = append(out, c09Cfg{N: n, Cols: 2, Eager: eager, MaxL: maxL, Sparse: true})
+		}
+		out = append(out, c09Cfg{N: n, Cols: 1, Eager: true, MaxL: maxL - 1, GapMs: 1500})
+		out = append(out, c09Cfg{N: n, Cols: 1, Eager: true, MaxL: maxL - 1, GapMs: 1500, TTL: "1m"})
+		out = append(out, c09Cfg{N: n, Cols: 1, Eager: true, MaxL: maxL - 1, GapMs: 25000, TTL: "1m"})
 	}
 	return out
 }
@@ -65,15 +79,44 @@ func growthStrings(maxL, k int, f func([]int)) {
 
 var c09Keys1 = []Row{{"k": "a"}, {"k": "b"}, {"k": "c"}}
 var c09Keys2 = []Row{{"k": "a", "k2": "x"}, {"k": "a", "k2": "y"}, {"k": "b", "k2": "x"}}
+var c09KeysSparse = []Row{{"k": "a", "k2": "a"}, {"k": "a"}, {"k2": "a"}}
+
+// c09InScope: with a STATETTL the property only speaks about runs in which no key is reaped, i.e. no
+// key with a non-empty partial buffer stays idle for the TTL or longer (idle = distance x gap).
+func c09InScope(cfg c09Cfg, seq []int) bool {
+	if cfg.TTL == "" {
+		return true
+	}
+	ttl, _ := vtime.ParseDuration(cfg.TTL)
+	last := map[int]int{}
+	for i, k := range seq {
+		last[k] = i
+	}
+	prev := map[int]int{}
+	for i, k := range seq {
+		if j, ok := prev[k]; ok && int64(i-j)*int64(cfg.GapMs)*1e6 >= int64(ttl)-int64(vtime.Second) {
+			return false
+		}
+		prev[k] = i
+	}
+	return true
+}
 
 func c09SQL(cfg c09Cfg) string {
-	if cfg.Cols == 2 {
-		return fmt.Sprintf("SELECT k, k2, count(*) AS c, collect(id) AS ids, first_value(id) AS f, last_value(id) AS l FROM stream GROUP BY k, k2, CountingWindow(%d)", cfg.N)
+	with := ""
+	if cfg.TTL != "" {
+		with = " WITH (STATETTL='" + cfg.TTL + "')"
 	}
-	return fmt.Sprintf("SELECT k, count(*) AS c, collect(id) AS ids, first_value(id) AS f, last_value(id) AS l FROM stream GROUP BY k, CountingWindow(%d)", cfg.N)
+	if cfg.Cols == 2 {
+		return fmt.Sprintf("SELECT k, k2, count(*) AS c, collect(id) AS ids, first_value(id) AS f, last_value(id) AS l FROM stream GROUP BY k, k2, CountingWindow(%d)", cfg.N) + with
+	}
+	return fmt.Sprintf("SELECT k, count(*) AS c, collect(id) AS ids, first_value(id) AS f, last_value(id) AS l FROM stream GROUP BY k, CountingWindow(%d)", cfg.N) + with
 }
 
 func c09Keys(cfg c09Cfg) []Row {
+	if cfg.Sparse {
+		return c09KeysSparse
+	}
 	if cfg.Cols == 2 {
 		return c09Keys2
 	}
@@ -143,6 +186,9 @@ func c09Feed(cfg c09Cfg, seq []int) func(e *Env) {
 				row[kk] = vv
 			}
 			e.Emit(row)
+			if cfg.GapMs > 0 {
+				e.Sleep(vtime.Duration(cfg.GapMs) * vtime.Millisecond)
+			}
 		}
 	}
 }
@@ -225,6 +271,9 @@ func (c09) Run(u fw.Unit) fw.Result {
 			return
 		}
 		seq = append([]int(nil), seq...)
+		if !c09InScope(cfg, seq) {
+			return
+		}
 		r := detExec(sql, detOpts{Eager: cfg.Eager, Horizon: 300 * vtime.Millisecond}, c09Feed(cfg, seq))
 		a.r.Evaluations++
 		a.r.States++
@@ -254,10 +303,10 @@ func (c09) Run(u fw.Unit) fw.Result {
 func (c09) Describe(tier string) fw.Description {
 	return fw.Description{
 		Level: "model_checking",
-		Rule: "(a) all key sequences of length 1..L over <=3 keys (canonical up to key renaming) x N in {1,2,3[,4]} x 1|2 grouping columns x eager|lazy feed, each executed on the real engine (streamsql.New/Execute/Emit, sync sink) under the deterministic schedule with the virtual clock and compared with the per-key batching reference (ids via collect, count, first/last); " +
+		Rule: "(a) all key sequences of length 1..L over <=3 keys (canonical up to key renaming) x N in {1,2,3[,4]} x 1|2 grouping columns (also tuples with a missing column: (a,a), (a,-), (-,a)) x eager|lazy feed, plus pauses of 1.5 s / 25 s of virtual time after every row without and with STATETTL=1m (sequences in which a key idles >= TTL are outside the property and skipped), each executed on the real engine (streamsql.New/Execute/Emit, sync sink) under the deterministic schedule with the virtual clock and compared with the per-key batching reference (ids via collect, count, first/last); " +
 			"(b) 9 fixed sequences x N explored over all schedules of producer, data processor, counting-window goroutine and result consumer with <= bound preemptions; non-trivial = at least one window result delivered (a) / reached through >=1 deviation (b)",
 		Bounds:      map[string]any{"max_len": map[string]int{"quick": 7, "thorough": 9}, "keys": 3, "N": "1..3 (4 in thorough)", "sched_bound": map[string]int{"quick": 1, "thorough": 2}},
-		Assumptions: []string{"no STATETTL reaping (property excludes it)", "window output buffer (50) and data buffer (1000) are never full inside the bounds", "key values contain no separator characters (that is C04's alphabet)"},
+		Assumptions: []string{"runs in which STATETTL reaps a key are excluded (the property excludes them); the default configuration (no STATETTL) must never reap", "window output buffer (50) and data buffer (1000) are never full inside the bounds", "key values contain no separator characters (that is C04's alphabet)"},
 	}
 }
 
